@@ -248,48 +248,56 @@ func runQSpec(s *qSpec, maxStates int) *qResult {
 	for d := 1; d <= s.Depth; d++ {
 		var next [][]string
 		newS := 0
-		// the candidates of one level are evaluated in parallel (each evaluation replays its history on a fresh queue)
-		// and merged in their fixed order, so the result does not depend on timing
-		var cands [][]string
-		for _, h := range frontier {
-			for _, a := range s.Alpha {
-				cands = append(cands, append(append([]string{}, h...), a))
+		// the candidates of one level are evaluated in parallel (each evaluation replays its history on a fresh queue),
+		// block by block (a whole level would not fit into memory), and merged in their fixed order, so the result does
+		// not depend on timing
+		const block = 4000
+		for b0 := 0; b0 < len(frontier); b0 += block {
+			b1 := b0 + block
+			if b1 > len(frontier) {
+				b1 = len(frontier)
 			}
-		}
-		keys, bads := make([]string, len(cands)), make([]string, len(cands))
-		var lwg sync.WaitGroup
-		nw := 8
-		for w := 0; w < nw; w++ {
-			lwg.Add(1)
-			go func(w int) {
-				defer lwg.Done()
-				for i := w; i < len(cands); i += nw {
-					keys[i], bads[i] = eval(cands[i])
+			var cands [][]string
+			for _, h := range frontier[b0:b1] {
+				for _, a := range s.Alpha {
+					cands = append(cands, append(append([]string{}, h...), a))
 				}
-			}(w)
-		}
-		lwg.Wait()
-		for i, nh := range cands {
-			res.transitions++
-			k, bad := keys[i], bads[i]
-			if bad != "" {
-				sig := "C20:" + s.Kind
-				for _, x := range nh {
-					if x == "shrink" {
-						sig = "C20:" + s.Kind + "/after-shrink"
+			}
+			keys, bads := make([]string, len(cands)), make([]string, len(cands))
+			var lwg sync.WaitGroup
+			nw := 8
+			for w := 0; w < nw; w++ {
+				lwg.Add(1)
+				go func(w int) {
+					defer lwg.Done()
+					for i := w; i < len(cands); i += nw {
+						keys[i], bads[i] = eval(cands[i])
 					}
-				}
-				res.viol = &explore.Violation{Sig: sig, Msg: s.name() + ": " + bad}
-				res.hist = nh
-				return res
+				}(w)
 			}
-			if !seen[k] {
-				seen[k] = true
-				res.states++
-				newS++
-				next = append(next, nh)
-				if d == s.Depth && res.sample == "" {
-					res.sample = strings.Join(nh, ",")
+			lwg.Wait()
+			for i, nh := range cands {
+				res.transitions++
+				k, bad := keys[i], bads[i]
+				if bad != "" {
+					sig := "C20:" + s.Kind
+					for _, x := range nh {
+						if x == "shrink" {
+							sig = "C20:" + s.Kind + "/after-shrink"
+						}
+					}
+					res.viol = &explore.Violation{Sig: sig, Msg: s.name() + ": " + bad}
+					res.hist = nh
+					return res
+				}
+				if !seen[k] {
+					seen[k] = true
+					res.states++
+					newS++
+					next = append(next, nh)
+					if d == s.Depth && res.sample == "" {
+						res.sample = strings.Join(nh, ",")
+					}
 				}
 			}
 		}
@@ -452,7 +460,7 @@ func c20Specs(quick bool) []*qSpec {
 			if quick && p[1] != 8 {
 				continue
 			}
-			specs = append(specs, &qSpec{Kind: kind, Params: p, Alpha: []string{"pushnode", "push", "pop", "drain", "drain1", "rellac", "resize", "restructuring", "iter"}, Depth: 24, MaxStates: map[bool]int{true: 70000, false: 0}[quick]})
+			specs = append(specs, &qSpec{Kind: kind, Params: p, Alpha: []string{"pushnode", "push", "pop", "drain", "drain1", "rellac", "resize", "restructuring", "iter"}, Depth: 24, MaxStates: map[bool]int{true: 70000, false: 300000}[quick]})
 		}
 	}
 	// Shrink (no call site in slock) in a spec of its own, so that what it breaks does not stop the other searches
